@@ -122,3 +122,112 @@ class DocTable:
 
     def __len__(self) -> int:
         return len(self.docs)
+
+
+# ---- generic comparison of evaluation results (used by C02, C13, ...) ---------------------------
+
+
+def expr_features(node: Any, acc: Optional[set] = None) -> set:
+    """Constructs used inside a query / expression AST (for signatures)."""
+    if acc is None:
+        acc = set()
+    if isinstance(node, dict):
+        k = node.get("k")
+        if k == "cmp":
+            acc.add("op" + node["op"])
+        elif k in ("fn", "ftest"):
+            acc.add(node["f"] + "()")
+        elif k in ("or", "and", "not", "key", "undef", "list", "re", "keys"):
+            acc.add(k)
+        elif k == "test":
+            acc.add("test")
+        elif k == "filter":
+            acc.add("filter")
+        if "root" in node and "segs" in node:
+            if node["root"] != "@":
+                acc.add("root" + node["root"])
+            if node["root"] == "@" and not node["segs"]:
+                acc.add("bare@")
+        for v in node.values():
+            expr_features(v, acc)
+    elif isinstance(node, list):
+        for v in node:
+            expr_features(v, acc)
+    return acc
+
+
+def value_kind(v: Any) -> str:
+    if v is None:
+        return "null"
+    if isinstance(v, bool):
+        return "bool"
+    if isinstance(v, (int, float)):
+        return "num"
+    if isinstance(v, str):
+        return "str"
+    if isinstance(v, list):
+        return "arr"
+    if isinstance(v, dict):
+        return "obj"
+    return type(v).__name__
+
+
+def describe_candidate(v: Any) -> str:
+    if isinstance(v, dict) and set(v) <= {"x", "y"}:
+        return "x:" + (value_kind(v["x"]) if "x" in v else "absent") + ",y:" + (value_kind(v["y"]) if "y" in v else "absent")
+    if isinstance(v, dict):
+        return "obj{" + ",".join(f"{k}:{value_kind(x)}" for k, x in list(v.items())[:3]) + "}"
+    return value_kind(v)
+
+
+def compare_eval(rec: Dict[str, Any], tbl: "DocTable", *, styles: Sequence[int], float_variants: bool = False,
+                 ctx: Any = None, env: Any = None, ordered: bool = True) -> List[Tuple[str, Dict[str, Any], str]]:
+    """Compile each text of the record, evaluate on every document and compare locations with the
+    specification's node lists.  Returns at most one divergence per record."""
+    import jsonpath
+
+    from .core import exc_family, parts_to_loc
+
+    e = env or jsonpath.DEFAULT_ENV if hasattr(jsonpath, "DEFAULT_ENV") else env
+    for si in styles:
+        text = untext(rec["texts"][si])
+        try:
+            path = (env or jsonpath).compile(text)
+        except BaseException as ex:  # noqa: BLE001
+            return [(f"compile-raised-{exc_family(ex)}|{'+'.join(sorted(expr_features(rec['q'])))}",
+                     {"query": text, "style": si, "tagged": rec}, f"query rejected: {type(ex).__name__}: {ex}")]
+        for d in range(len(tbl)):
+            exp = [lockey(l) for l in rec["res"][d]]
+            for fl in ((False, True) if float_variants else (False,)):
+                doc = untag(tbl.docs[d]["doc"], floats=fl)
+                try:
+                    kw = {"filter_context": ctx} if ctx is not None else {}
+                    ms = list(path.finditer(doc, **kw))
+                    obs = [lockey(parts_to_loc(m.parts)) for m in ms]
+                    disc = ""
+                    if obs != exp:
+                        disc = "selects-other-nodes" if sorted(map(repr, obs)) != sorted(map(repr, exp)) else "wrong-order"
+                except BaseException as ex:  # noqa: BLE001
+                    disc = f"evaluate-raised-{exc_family(ex)}"
+                    obs = []
+                if disc:
+                    diff = [l for l in exp if l not in obs] + [l for l in obs if l not in exp]
+                    cand = ""
+                    if diff:
+                        try:
+                            cur = doc
+                            for kind, val in diff[0]:
+                                cur = cur[untext(val) if kind == "k" else val]
+                            cand = ("missed:" if diff[0] in exp else "extra:") + describe_candidate(cur)
+                        except Exception:  # noqa: BLE001
+                            cand = "?"
+                    sig = f"{disc}|{'+'.join(sorted(expr_features(rec['q'])))}|{cand}"
+                    return [(sig, {"query": text, "style": si, "floats": fl, "doc_index": d,
+                                   "doc": show(tbl.docs[d]["doc"]) if len(json.dumps(tbl.docs[d]["doc"])) < 3000 else "(large)",
+                                   "expected": [list(loc_to_parts_k(l)) for l in exp][:40], "observed": [list(loc_to_parts_k(l)) for l in obs][:40],
+                                   "tagged": rec}, disc)]
+    return []
+
+
+def loc_to_parts_k(key: Tuple[Any, ...]) -> List[Any]:
+    return [untext(v) if k in ("k", "n") else v for k, v in key]
